@@ -455,6 +455,19 @@ func (g *TxGen) GenRegistry(t *rapid.T) *RegTx {
 				unauthorized = "runtime update signed by an entity that does not govern it"
 			}
 		}
+		if unauthorized != "" && rapid.Bool().Draw(t, "rtTakeover") {
+			// ... which names ITSELF as the runtime's entity and offers future deployments only - what the registration of a
+			// NEW runtime looks like. For a runtime that exists (active or suspended) it is an update by a stranger.
+			rt.EntityID = signer.Signer.Public()
+			var deps []*registry.VersionInfo
+			for i, dp := range rt.Deployments {
+				c := *dp
+				c.ValidFrom = g.V.Epoch + 1 + beacon.EpochTime(i)
+				deps = append(deps, &c)
+			}
+			rt.Deployments = deps
+			unauthorized = "runtime taken over by an entity that does not govern it (names itself, future deployments only)"
+		}
 		d := g.sign(signer.Signer, signer.Address(), registry.MethodRegisterRuntime, &rt, signer.Name)
 		d.Note = "update runtime"
 		if toRuntimeGov {
